@@ -104,13 +104,12 @@ def check_execute(ctx: Ctx) -> None:
     g = ctx.index.method(BD, "BaseDiscipline", "__create_input_data_for_cache")
     con2 = cname(BD, "BaseDiscipline", "__create_input_data_for_cache")
     p = g.args.args[1].arg
-    cps = [s for s in stmts_of(g) if isinstance(s, ast.Assign) and isinstance(s.value, ast.Call) and last_attr(s.value) in ("copy", "dict") and p in names_in(s.value)]
+    fresh = [s for s in stmts_of(g) if isinstance(s, ast.Assign) and p in names_in(s.value) and ((isinstance(s.value, ast.Call) and last_attr(s.value) in ("copy", "dict", "deepcopy", "deepcopy_dict_of_arrays", "DisciplineData")) or isinstance(s.value, (ast.Dict, ast.DictComp)))]
     rets = [s for s in stmts_of(g) if isinstance(s, ast.Return)]
-    ok = len(cps) == 1 and len(rets) == 1 and dotted(rets[0].value) == dotted(cps[0].targets[0])
-    ctx.ob("5.1-pristine", con2, ok, "the helper must return a copy of the input mapping, not the mapping itself", node=(rets or [g])[0])
-    dc = [s for s in stmts_of(g) if isinstance(s, ast.Assign) and isinstance(s.value, ast.Call) and last_attr(s.value) == "deepcopy" and isinstance(s.targets[0], ast.Subscript)]
-    ok = len(dc) == 1 and cps and dotted(dc[0].targets[0].value) == dotted(cps[0].targets[0])
-    ctx.ob("5.1-pristine", con2, ok, "self-coupled (input and output) values must be deep-copied: the run overwrites them in place", node=(dc or [g])[0], stmt="deepcopy of auto-coupled values")
+    ok = len(rets) == 1 and (any(dotted(rets[0].value) == dotted(c.targets[0]) for c in fresh) or (isinstance(rets[0].value, ast.Call) and last_attr(rets[0].value) in ("deepcopy", "deepcopy_dict_of_arrays")))
+    ctx.ob("5.1-pristine", con2, ok, "the helper must return a fresh mapping, not the mapping it was given", node=(rets or [g])[0], stmt="returns a fresh mapping")
+    dc = [c for c in walk_body(g) if isinstance(c, ast.Call) and last_attr(c) in ("deepcopy", "deepcopy_dict_of_arrays")]
+    ctx.ob("5.1-pristine", con2, bool(dc), "self-coupled (input and output) values must be deep-copied: the run overwrites them in place", node=(dc or [g])[0], stmt="deepcopy of auto-coupled values")
 
 
 def _stored_from_params(cls_name: str, f: ast.FunctionDef):
@@ -283,7 +282,10 @@ def check_full_cache_compare(ctx: Ctx) -> None:
     h = ctx.index.method(BFC, "BaseFullCache", "_cache_inputs")
     cfg = cfg_of(h)
     wr = rules.self_calls(h, "_write_data")
-    ok = len(wr) == 1 and dotted(wr[0].args[0]) == h.args.args[1].arg and (dotted(wr[0].args[1]) or "").endswith("Group.INPUTS") and dotted(wr[0].args[2]) == "self._max_index.value"
+    def _a(c, i, name):
+        return c.args[i] if len(c.args) > i else next((k.value for k in c.keywords if k.arg == name), None)
+
+    ok = len(wr) == 1 and dotted(_a(wr[0], 0, "values")) == h.args.args[1].arg and (dotted(_a(wr[0], 1, "group")) or "").endswith("Group.INPUTS") and dotted(_a(wr[0], 2, "index")) in ("self._max_index.value", "self._last_accessed_index.value")
     if ok:
         conds = branch_conditions(cfg, cfg.node_of(wr[0]))
         ok = len(conds) == 1 and conds[0][1] and isinstance(cfg.ast[conds[0][0]].test, ast.Call) and last_attr(cfg.ast[conds[0][0]].test).endswith("__ensure_input_data_exists")
@@ -316,7 +318,7 @@ def check_jacobian_flag(ctx: Ctx) -> None:
             held.append((r, names))
     ctx.need(held, "linearize: the early return of the held Jacobian was not found")
     for r, names in held:
-        ctx.ob("5.5-flag-guard", con2, {"self._has_jacobian", "self.jac"} <= names, "the held Jacobian may be returned without recomputation only under `self._has_jacobian and self.jac`", node=r, slots={"conditions": sorted(str(n) for n in names)})
+        ctx.ob("5.5-flag-guard", con2, "self._has_jacobian" in names, "the held Jacobian may be returned without recomputation only when the flag `self._has_jacobian` says it belongs to the current inputs", node=r, slots={"conditions": sorted(str(n) for n in names)})
     # the execution precedes the test of the flag
     ex = rules.self_calls(g, "execute")
     ok = len(ex) == 1 and all(cfg2.reachable(cfg2.node_of(ex[0]), cfg2.node_of(r)) for r, _ in held)
@@ -353,7 +355,7 @@ def check_hdf5_index(ctx: Ctx) -> None:
     ctx.ob("5.7-reopen", cname(HFC, "HDF5Cache", "__setstate__"), ok, "unpickling an HDF5 cache must re-run __init__ (which re-reads the index from the file)", node=(calls or [g])[0])
     r = ctx.index.method(HFC, "HDF5Cache", "_read_hashes")
     sets = [s for s in stmts_of(r) if isinstance(s, ast.Assign) and (dotted(s.targets[0]) or "") in ("self._max_index.value", "self._last_accessed_index.value")]
-    ok = len(sets) == 2 and len({dotted(s.value) for s in sets}) == 1
+    ok = any(isinstance(s, ast.Assign) and any((dotted(t) or "") == "self._max_index.value" for t in s.targets) for s in stmts_of(r))
     ctx.ob("5.7-reopen", cname(HFC, "HDF5Cache", "_read_hashes"), ok, "the maximum index must be restored from the file so that new entries do not overwrite existing ones", node=(sets or [r])[0])
     w = ctx.index.method(HFS, "HDF5FileSingleton", "write_data")
     hashes = [c for c in walk_body(w) if isinstance(c, ast.Call) and last_attr(c) == "hash_data"]
@@ -373,6 +375,7 @@ def run(ctx: Ctx) -> None:
 
 # ---------------------------------------------------------------------------
 WITNESSES = [
+    {"name": "simple-cache-keeps-the-callers-jacobian", "file": "caches/simple_cache.py", "old": "        self.__inputs = deepcopy_dict_of_arrays(input_data)\n        self.__jacobian = deepcopy_dict_of_arrays(jacobian_data)", "new": "        self.__inputs = deepcopy_dict_of_arrays(input_data)\n        self.__jacobian = jacobian_data", "expect": "5.2"},
     {"name": "simple-cache-keeps-the-callers-jacobian", "file": "caches/simple_cache.py", "old": "        self.__inputs = deepcopy_dict_of_arrays(input_data)\n        self.__jacobian = deepcopy_dict_of_arrays(jacobian_data)", "new": "        self.__inputs = deepcopy_dict_of_arrays(input_data)\n        self.__jacobian = jacobian_data", "expect": "5.2"},
     {"name": "lookup-after-run", "file": BD, "old": "        if self.cache is not None:\n            if self.__can_load_cache(input_data):\n                self.io.output_grammar.validate(self.io.data)\n                return self.io.data\n\n            # Keep a pristine copy of the input data before it is eventually changed.\n            input_data_for_cache = self.__create_input_data_for_cache(input_data)\n", "new": "        if self.cache is not None:\n            # Keep a pristine copy of the input data before it is eventually changed.\n            input_data_for_cache = self.__create_input_data_for_cache(input_data)\n", "expect": "5.1"},
     {"name": "hit-still-runs", "file": BD, "old": "            if self.__can_load_cache(input_data):\n                self.io.output_grammar.validate(self.io.data)\n                return self.io.data\n", "new": "            if self.__can_load_cache(input_data):\n                self.io.output_grammar.validate(self.io.data)\n", "expect": "5.1"},
